@@ -193,7 +193,7 @@ impl Check for C19 {
         let c = c01::cfg();
         prop_oneof![
             3 => (gt::choices(170), gt::choices(60)).prop_map(|(task, interp)| FlagCase::External { task, interp }),
-            2 => (ga::program(&c), ga::shaped_program(&c, 1), any::<bool>(), g::raw_interp(4, 0, 2, 5))
+            2 => (ga::program(&c), ga::shaped_program(&c, 1), any::<bool>(), g::raw_interp(5, 0, 2, 5))
                 .prop_map(|(left, right, mu, raw)| FlagCase::Strong { left, right, mu, raw }),
         ]
         .boxed()
